@@ -82,6 +82,12 @@ pub fn new_world(env: &RealEnv, dir: &std::path::Path, mut proj: Project, rng: &
     }
     clear_dir(dir);
     let mut w = World::new(dir.to_path_buf(), proj);
+    if rng.chance(1, 5) {
+        w.ropts.spell_seed = rng.next() | 1;
+    }
+    if rng.chance(1, 5) {
+        w.ropts.shadow_seed = rng.next() | 1;
+    }
     w.init_sources(rng);
     w.write_manifest();
     std::fs::create_dir_all(dir.join(".n2v")).unwrap();
